@@ -36,6 +36,7 @@ def run(repo: Repo, chk: Check) -> None:
     chain(repo, chk)
     l1(repo, chk)
     boundary(repo, chk)
+    const_permutation(repo, chk)
     const_guards(repo, chk)
     alloc_dyn_sizes(repo, chk)
 
@@ -355,6 +356,54 @@ def boundary(repo: Repo, chk: Check) -> None:
 
 
 # --------------------------------------------------------------------------- compile-time re-layout
+def const_permutation(repo: Repo, chk: Check) -> None:
+    chk.rule(
+        "C12.const-permutation",
+        "transform_constant moves element i of the plain data TO address layout(i) (a scatter): the bytes are the data reshaped to the "
+        "layout's bounds and transposed into DESCENDING step order, or stored through the layout's address enumeration; reading the data "
+        "THROUGH the enumeration (`values[all_values()]`, a gather) applies the inverse permutation and is right only for layouts that are "
+        "their own inverse",
+        floor=1,
+    )
+    f, fl = flow_of(repo, chk, CASTS, "transform_constant")
+    dl = f.param(1)
+    byts = [s for s in fl.calls("tobytes") if s.reachable]
+    if not byts:
+        raise AnalysisError(f"{f.where}: the bytes of the new constant are not taken from an array (`.tobytes()`)")
+    for n_, s in enumerate(byts, 1):
+        recv = s.node.func.value  # type: ignore[attr-defined]
+        cone = fl.cone(recv, s, inline=0)
+        key = f"{f.key}:data#{n_}"
+        gathers = [c for c in ast.walk(cone) if isinstance(c, ast.Subscript) and isinstance(c.ctx, ast.Load) and norm.contains(c.slice, T("$l.data.all_values()"))]
+        scatters = [c for c in ast.walk(cone) if isinstance(c, ast.Call) and isinstance(c.func, ast.Name) and c.func.id == "__store__" and len(c.args) >= 2
+                    and norm.contains(c.args[1], T("$l.data.all_values()"))]
+        rt = norm.find(T("$v.reshape($b).transpose($o)"), cone)
+        if gathers and not scatters:
+            chk.bad("C12.const-permutation", key, s.where(),
+                    f"the new constant is `{ast.unparse(gathers[0])[:80]}`: the data is read THROUGH the layout's address enumeration (gather), which is the inverse of "
+                    "placing element i at address layout(i); for [2,2]->(8,1),[2,2]->(4,2) elements land at the wrong addresses")
+            continue
+        if scatters:
+            chk.ok("C12.const-permutation", key, s.where(), "the data is stored through the layout's address enumeration (scatter)")
+            continue
+        if not rt:
+            raise AnalysisError(f"{s.where()}: the permutation applied to the constant data is not recognised")
+        _, m = rt[0]
+        b_ok = norm.contains(m["b"], T("$s.bound")) and depends_on(m["b"], f"{dl}.data")
+        o = m["o"]
+        by_step = norm.contains(o, T("$s.step")) and any(isinstance(c, ast.Call) and callee_name(c) == "argsort" for c in ast.walk(o))
+        # descending: the ascending argsort reversed once (`[::-1]`, reversed(..), flip) or an argsort of negated steps
+        rev = sum(1 for c in ast.walk(o) if isinstance(c, ast.Subscript) and isinstance(c.slice, ast.Slice) and isinstance(c.slice.step, ast.UnaryOp)
+                  and isinstance(c.slice.step.op, ast.USub) and isinstance(c.slice.step.operand, ast.Constant) and c.slice.step.operand.value == 1)
+        rev += sum(1 for c in ast.walk(o) if isinstance(c, ast.Call) and callee_name(c) in ("reversed", "flip"))
+        neg = any(isinstance(c, ast.UnaryOp) and isinstance(c.op, ast.USub) and norm.contains(c, T("$s.step")) for c in ast.walk(o))
+        desc = (rev % 2 == 1) != neg
+        chk.result(b_ok and by_step and desc, "C12.const-permutation", key, s.where(),
+                   "data reshaped to the layout's bounds and transposed into descending step order",
+                   f"the data is reshaped/transposed by bounds-from-layout={b_ok}, order-from-steps={by_step}, descending={desc}: the outermost array axis must be the "
+                   "stride with the largest step")
+
+
 def const_guards(repo: Repo, chk: Check) -> None:
     chk.rule(
         "C12.const-guards",
